@@ -1,6 +1,6 @@
 """C11 Propagators form a group and agree with each other and with theory.
 
-Five families of cases.
+Seven families of cases.
 
 group:  (model checking) the PROGRAM STATE GRAPH of unit-magnification angular-spectrum steps.
         A program is a sequence of steps dz in {-2,-1,+1,+2,+3}*z0; the state of a program is the
@@ -18,11 +18,18 @@ group:  (model checking) the PROGRAM STATE GRAPH of unit-magnification angular-s
         input, T(-z) T(z) = I, and non-lattice splits z = t z + (1-t) z compose to T(z).
 magrt:  magnified round trip  T(d2->d1, -z, 1/m) T(d1->d2, z, m) = e^{i phi} I  (E2, all inputs).
 op:     cross-propagator / Fresnel-integral identities on complete operators (E2, all inputs):
-        one-step == direct quadrature of the Fresnel integral on its own grid; lens == one-step
-        after a thin lens; two-step == chain of two Fresnel quadratures through its intermediate
-        plane; angular spectrum (m = 1) == Fresnel transfer function exp(-i pi lambda z f^2);
-        angular spectrum (m != 1) == two-step on the identical grids (Schmidt derives one from
-        the other, the discrete operators coincide), up to the constant phase the statement allows.
+        one-step == direct quadrature of the Fresnel integral on its own grid (z < 0: on the
+        descending grid x2 = lambda z f or on the ascending one, the same for the lens); lens ==
+        one-step after a thin lens; two-step == chain of two Fresnel quadratures through its
+        intermediate plane (z/(1-m) or z/(1+m)); angular spectrum (m = 1) == Fresnel transfer
+        function exp(-i pi lambda z f^2); angular spectrum (m != 1) == two-step through z/(1-m) on
+        the identical grids (Schmidt derives one from the other, the discrete operators coincide),
+        up to a constant phase; magnifications 1 +- 1e-3, 1 +- 1e-6 against the scaled-convolution
+        form of the integral; caller-owned arrays and storage variants for every propagator.
+history: P(A); P(B); P(A) for every propagator, B = A with ONE parameter edited (wavelength, z,
+        sign of z, input spacing, output spacing): each operator against the reference of its own
+        parameters (a memoised kernel / grid keyed without that parameter).
+fullband: inverse, split and magnified round trip on one full-band field at N = 64, 257, 600 (1030).
 beam:   (exploration) lattice of off-centre Gaussian beams that every sampled plane of the method
         resolves (window margin >= 5.5 beam radii => truncation below 1e-13): each propagator
         against the closed form q -> q + z, incl. Gouy phase and orientation; pairs of propagators
@@ -48,10 +55,12 @@ TECHNIQUE = ("explicit-state breadth-first exploration of the program state grap
              "path independence), every program also executed on the real function; plus bounded exhaustive "
              "enumeration of operator identities (E2) and of a lattice of resolved Gaussian beams / Airy "
              "patterns against closed forms")
-RULE = ("group cases = product(N in {4,6,8}, wavelength, spacing, z0); per case ALL 5 + 5^2 + ... + 5^depth "
+RULE = ("group cases = product(N in {4,5,6,7,8}, wavelength, spacing, z0); per case ALL 5 + 5^2 + ... + 5^depth "
         "programs are enumerated (transitions = program extensions explored, states = distinct total "
         "distances, traces = programs executed step by step on the real angularSpectrum); magrt/op cases = "
-        "product(N, wavelength, spacing, z, magnification); beam cases = product(N in {64,128}, wavelength, "
+        "product(N in {4,6,8}, wavelength, spacing, z, magnification incl. 1 +- 1e-3 and 1 +- 1e-6); history cases = "
+        "product(N in {4,6}, single-parameter edit) x 5 propagators; fullband cases = product(N, 2 parameter points); "
+        "beam cases = product(N in {64,128}, wavelength, "
         "spacing, waist, asymmetric centre, input plane) x (distance, magnification, propagator) filtered by the "
         "resolvedness predicate; non-trivial = every case except none (all steps have non-unit transfer "
         "functions, all beams are off-centre with |x0| != |y0|)")
@@ -62,15 +71,31 @@ ASSUMPTIONS = [
     "parameter values outside the (wavelength, spacing, z0, magnification) lattice are not covered",
     "physics clauses are decided on a finite lattice of Gaussian beams resolved by every plane the method "
     "samples (margin >= 5.5 beam radii, spectral margin for the convolution form); Fresnel (paraxial) regime only",
-    "one-step / lens outputs are read on the grid the method itself defines, x2 = lambda z f, i.e. with signed "
-    "spacing lambda z / (N d1) (descending coordinates for z < 0)",
+    "one-step / lens outputs for z < 0 (f < 0) are accepted on the grid x2 = lambda z f read literally (signed "
+    "spacing, descending coordinates) or on the ascending grid of spacing lambda |z| / (N d1) (the same plane "
+    "mirrored through the origin), whichever reproduces the integral - but the same one in every clause and case "
+    "(negative_z_grid_is_one_convention); the comparison with the other propagators is made on the ascending grid",
+    "two-step: the intermediate plane may be z/(1-m) (the statement's anchor) or z/(1+m), the two planes from which "
+    "a second single-transform step lands on spacing m d1; which one is used is read off the complete 4x4 / NxN "
+    "operator; equality of the complete two-step and angular-spectrum operators is claimed only for z/(1-m) "
+    "(for z/(1+m) the two agree on resolved beams only, which the beam cases decide)",
+    "the operator identities are asserted for ALL inputs of the grid (quantifier 'all input fields'), i.e. also for "
+    "inputs no plane resolves; this holds for the discretisations named in the statement's anchors and would not "
+    "hold for an implementation with additional anti-aliasing (band limit, zero padding)",
+    "theory and cross-propagator clauses use even N only (sample N/2 on the axis); odd N is covered by the group and "
+    "round-trip clauses (N = 5, 7, 257), which do not depend on where the origin lies: on odd grids the library's "
+    "coordinate grids arange(-N/2, N/2) lie half a sample off the origin N//2 of its own centred FFT, a reported "
+    "finding that is not part of this check",
+    "spacings are metre-scale (>= 4 mm): the constant phase k(1-m)1e-10/(2z) that angularSpectrum carries for m != 1 "
+    "stays below the 1e-4 / 1e-5 rad bounds on this lattice only (reported finding for micrometre spacings)",
+    "z == 0 'returns the input' and the group clauses are equalities of values to 1e-10, not of bits or objects",
     "Airy clauses are a bounded surrogate: pixelated aperture of radius N/16 or N/12 samples (N = 256, 512), tolerances from the "
     "pixelation error (recorded in the evidence)",
     "a constant phase is allowed where the statement allows it (magnified round trip) and between propagators; "
     "its size is bounded separately (1e-4 rad) and the Gouy phase is checked to 1e-5 rad",
 ]
 ENGINES = ["E1-product-enumeration", "E2-basis-exhaustion", "E3-explicit-state-history-search"]
-LEVEL_TEXT = ("Group clauses: for every grid N in {4,6,8} x 2 wavelengths x 2 spacings x 2 unit distances the state "
+LEVEL_TEXT = ("Group clauses: for every grid N in {4,5,6,7,8} x 2 wavelengths x 2 spacings x 2 unit distances the state "
               "graph of all programs of <= 4 (quick) / 6 (thorough) angular-spectrum steps over the alphabet "
               "{-2,-1,1,2,3} z0 is explored breadth-first; each state (total distance) carries the operator composed "
               "from the real per-step operators (extracted from all unit inputs), and the invariant 'every path into "
@@ -78,13 +103,16 @@ LEVEL_TEXT = ("Group clauses: for every grid N in {4,6,8} x 2 wavelengths x 2 sp
               "by step on the real function and compared with the model. Physics clauses (Gaussian beam, Airy, "
               "cross-propagator agreement on resolved beams) are exploration level; the operator identities "
               "(one-step/lens/two-step vs Fresnel quadrature, angular spectrum vs transfer function and vs two-step) "
-              "are decided for all inputs at N <= 8 by basis exhaustion.")
+              "are decided for all inputs at N <= 8 by basis exhaustion, as are the call histories over two parameter "
+              "sets (N in {4,6}, five single-parameter edits, all five propagators). Full-band fields at N = 64..1030 "
+              "are single-input exploration.")
 LEVEL_NOTE = ("The model is the labelled state graph built from operators measured on the implementation, not a "
               "hand-written abstraction: soundness rests on linearity (C10) and numpy matrix products. Conformance: "
               "every enumerated program is replayed on the real angularSpectrum (traces_validated_against_impl = "
               "number of programs). 'transitions' counts program extensions explored (5 + ... + 5^depth per case), "
               "'states' the distinct total distances per case. Not covered: depth beyond the bound except by "
-              "induction, N > 8 for operator identities, beams outside the lattice.")
+              "induction, N > 8 for operator identities, beams outside the lattice, odd N for the theory clauses, "
+              "histories over more than two parameter sets.")
 
 TOL = 1e-10
 TOL_BEAM = 1e-9
@@ -98,8 +126,9 @@ D1S = [0.01, 0.05]
 Z0S = [100.0, 2500.0]
 NS_OP = [4, 6, 8]
 MAGS_RT = [0.5, 2.0, 1.3, 0.8]
-ZS_OP = [100.0, -100.0, 2500.0, -2500.0, 1.0e4]
+ZS_OP = [100.0, -100.0, 2500.0, -2500.0, 1.0e4, 137.0, -731.0]   # last two: d^2/(lambda z) not an integer
 MAGS_OP = [1.0, 0.5, 0.8, 1.3, 2.0]
+NEAR_UNIT = [1e-3, -1e-3, 1e-6, -1e-6]      # magnifications 1 + eps
 SPLITS = [(1, 0.37), (-2, 1.0 / 3.0), (3, 0.9), (1, 1e-6), (2, 5e-6), (-1, 1e-4), (3, 1.0 - 2e-5)]
 MANY_LEGS = [(1, 64), (-1, 1024), (2, 4096)]      # total (in z0) walked in that many equal legs
 
@@ -110,6 +139,20 @@ CENTRES = {"A": (3.3, -5.6), "B": (-6.4, 2.2)}
 ZA_F = [0.0, -0.6, 0.8]
 Z_F = [0.4, -0.4, 1.0, -1.0, 2.5, -2.5, 4.0, -4.0]
 MAGS_BEAM = [1.0, 0.5, 0.8, 1.3, 2.0]
+NEAR_UNIT_BEAM = [1e-3, -1e-6]             # magnifications 1 + eps (full lattice only)
+
+
+# call histories: first parameter set and the single-parameter edits (z values with d^2/(lambda z) not an integer)
+NS_HISTORY = [4, 6]
+HISTORY_BASE = {"wvl": 0.5e-6, "d1": 0.01, "d2": 0.013, "z": 137.0}
+HISTORY_EDITS = [("wvl", 1.5e-6), ("z", 731.0), ("z", -137.0), ("d1", 0.05), ("d2", 0.008)]
+FULLBAND_POINTS = [(0.5e-6, 0.01, 100.0), (1.5e-6, 0.05, -2500.0)]
+FULLBAND_SPLITS = [0.37, 1e-4]
+TOL_FULLBAND = 1e-11
+
+
+def NS_FULLBAND(tier):
+    return [64, 257, 600] if tier == "quick" else [64, 257, 600, 1030]
 
 
 def DEPTH(tier):
@@ -128,10 +171,16 @@ def BOUNDS(tier):
     return {"group": {"N": NS_OP + [5, 7], "wavelengths": WVLS, "spacings": D1S, "z0": Z0S, "step_alphabet_z0": STEPS,
                       "depth": DEPTH(tier), "non_lattice_splits(total_z0, fraction)": SPLITS, "many_equal_legs(total_z0, legs)": MANY_LEGS},
             "magnified_round_trip": {"N": NS_OP, "magnifications": MAGS_RT, "z": ZS_OP[:4]},
-            "operator_identities": {"N": NS_OP, "z": ZS_OP, "magnifications": MAGS_OP},
+            "operator_identities": {"N": NS_OP, "z": ZS_OP, "magnifications": MAGS_OP,
+                                    "magnifications_near_unit": [1.0 + e for e in NEAR_UNIT],
+                                    "storage": "caller-owned array history and layouts/dtypes per propagator"},
+            "call_histories": {"N": NS_HISTORY, "first": HISTORY_BASE, "single_parameter_edits": HISTORY_EDITS,
+                               "propagators": 5},
+            "fullband": {"N": NS_FULLBAND(tier), "points(wavelength, spacing, z)": FULLBAND_POINTS,
+                         "split_fractions": FULLBAND_SPLITS, "magnifications": [1.3, 0.5], "largest_N": max(NS_FULLBAND(tier))},
             "beams": {"N": NS_BEAM(tier), "N_reduced_lattice": [600, 1024] if tier == "quick" else [600, 1024, 1030, 2050], "wavelengths": WVLS, "spacings": BEAM_D1, "waist_px": W0PX,
                       "centres_px": CENTRES, "input_plane_zR": ZA_F, "distance_zR": Z_F,
-                      "magnifications": MAGS_BEAM, "margin_beam_radii": MARGIN},
+                      "magnifications": MAGS_BEAM + [1.0 + e for e in NEAR_UNIT_BEAM], "margin_beam_radii": MARGIN},
             "airy": {"N": NS_AIRY(tier), "aperture_radius_px": ["N/16", "N/12"], "focal": [2.5, -2.5]}}
 
 
@@ -160,10 +209,18 @@ def cases(tier):
         for wvl, f, div in ((0.5e-6, 2.5, 16), (1.5e-6, -2.5, 12)):
             yield Case("airy:N=%d:lam=%g:f=%g:a=N/%d" % (N, wvl, f, div),
                        {"kind": "airy", "N": N, "wvl": wvl, "f": f, "div": div})
+    # call histories over two parameter sets that differ in ONE parameter (complete operators, even N)
+    for N, (key, val) in itertools.product(NS_HISTORY, HISTORY_EDITS):
+        yield Case("history:N=%d:%s->%g" % (N, key, val), {"kind": "history", "N": N, "key": key, "val": val})
+    # full-band (not band-limited, not smooth) fields at the sizes propagations are run at
+    for N, (wvl, d, z) in itertools.product(NS_FULLBAND(tier), FULLBAND_POINTS):
+        yield Case("fullband:N=%d:lam=%g:d=%g:z=%g" % (N, wvl, d, z),
+                   {"kind": "fullband", "N": N, "wvl": wvl, "d": d, "z": z})
 
 
 def evaluate(p):
-    return {"group": _group, "magrt": _magrt, "op": _op, "beam": _beam, "airy": _airy}[p["kind"]](p)
+    return {"group": _group, "magrt": _magrt, "op": _op, "beam": _beam, "airy": _airy, "history": _history,
+            "fullband": _fullband}[p["kind"]](p)
 
 
 def _maxabs(a):
@@ -181,6 +238,85 @@ def _phase_aligned(X, Y):
     phi = float(numpy.angle(numpy.vdot(numpy.ravel(Y), numpy.ravel(X))))
     s = _maxabs(Y)
     return _maxabs(X * numpy.exp(-1j * phi) - Y) / (s if s > 0 else 1.0), phi
+
+
+def _rel(X, Y):
+    if X.shape != Y.shape:
+        return float("inf")
+    return _maxabs(X - Y) / _maxabs(Y)
+
+
+# ---------------------------------------------------------------------------------- reference operators (E2)
+# All on row-major flattened N x N fields whose sample j sits at (j - N//2) * spacing (even N only: see
+# ASSUMPTIONS for odd grids).
+
+def _tf_ref(N, wvl, d, z):
+    """unit magnification: Fresnel transfer function exp(-i pi lambda z f^2) between centred DFTs"""
+    f = fr.coords(N, 1.0 / (N * d))
+    H = numpy.exp(-1j * numpy.pi * wvl * z * (f[None, :] ** 2 + f[:, None] ** 2)).reshape(-1)
+    return dft.kron2(dft.centred_idft(N, 1.0 / (N * d))) @ (H[:, None] * dft.kron2(dft.centred_dft(N, d)))
+
+
+def _as_ref(N, wvl, d1, d2, z):
+    """Fresnel integral from the grid of spacing d1 to the grid of spacing d2 = m d1 as a scaled convolution:
+    (x2 - x1)^2 = m (x2/m - x1)^2 + (1 - m) x1^2 + (m - 1)/m x2^2, hence
+    U2(x2) = exp(i pi (m-1) x2^2 / (m lambda z)) / m * [Fresnel convolution over z/m of U1 exp(i pi (1-m) x1^2 / (lambda z))](x2/m)
+    and x2/m runs over the input grid.  Well conditioned for m -> 1 (unlike a chain through the plane z/(1-m))."""
+    m = float(d2) / d1
+    x1, x2 = fr.coords(N, d1), fr.coords(N, d2)
+    r1 = (x1[None, :] ** 2 + x1[:, None] ** 2).reshape(-1)
+    r2 = (x2[None, :] ** 2 + x2[:, None] ** 2).reshape(-1)
+    q1 = numpy.exp(1j * numpy.pi * (1.0 - m) * r1 / (wvl * z))
+    q3 = numpy.exp(1j * numpy.pi * (m - 1.0) * r2 / (m * wvl * z))
+    return q3[:, None] * _tf_ref(N, wvl, d1, z / m) * q1[None, :] / m
+
+
+def _two_step_planes(m, z):
+    """the intermediate planes from which a second single-transform step lands on spacing m d1:
+    |z - Dz1| / |Dz1| = m  <=>  Dz1 = z/(1-m) (the plane the statement's anchor names) or z/(1+m) (between source
+    and observation plane; the only one for m = 1)"""
+    if m == 1.0:
+        return [("between", z / 2.0)]
+    return [("conjugate", z / (1.0 - m)), ("between", z / (1.0 + m))]
+
+
+def _chain(N, wvl, d1, d2, z, Dz1):
+    """two Fresnel quadratures through the plane Dz1 (sampled with the single-transform spacing of the first)"""
+    d1a = abs(fr.one_step_spacing(N, wvl, d1, Dz1))
+    return fr.fresnel_matrix_2d(N, wvl, d1a, d2, z - Dz1) @ fr.fresnel_matrix_2d(N, wvl, d1, d1a, Dz1)
+
+
+def _best_two_step_plane(T2, N, wvl, d1, d2, z):
+    """(error, plane name, Dz1, chain) of the candidate intermediate plane whose chain reproduces T2 best"""
+    best = None
+    for name, Dz1 in _two_step_planes(float(d2) / d1, z):
+        C = _chain(N, wvl, d1, d2, z, Dz1)
+        e = _rel(T2, C)
+        if not e == e:
+            e = float("inf")
+        if best is None or e < best[0]:
+            best = (e, name, Dz1, C)
+    return best
+
+
+def _probe_two_step_planes(o, op, wvl, d1, d2, z):
+    """Which intermediate plane does twoStepFresnel use for these parameters?  Decided on the complete 4 x 4 grid
+    operator (16 calls).  Returns the list of Dz1 the resolvedness predicate has to test: the identified plane, or
+    every candidate when none is identified (never a violation here: the op cases decide that clause)."""
+    m = float(d2) / d1
+    cands = _two_step_planes(m, z)
+    try:
+        T2, c = linear.operator(lambda U: op.twoStepFresnel(U, wvl, d1, d2, z), (4, 4), out_shape=(4, 4))
+        o.stat("lib_calls", c)
+        e, name, Dz1, _ = _best_two_step_plane(T2, 4, wvl, d1, d2, z)
+        # rounding of a chain through z/(1-m) grows like 1/|1-m| (measured 4e-8 at |1-m| = 1e-6)
+        if e <= max(1e-8, 1e-11 / max(abs(1.0 - m), 1e-300)):
+            o.stat("two_step_plane_" + name, 1)
+            return [Dz1]
+    except Exception:
+        pass
+    o.stat("two_step_plane_not_identified", 1)
+    return [Dz1 for _, Dz1 in cands]
 
 
 # ================================================================================== group (model checking)
@@ -211,12 +347,15 @@ def _group(p):
 
     # ---- distance 0 returns the input (all spellings of zero), as a complete operator
     u0 = _field(N)
+    uscale = _maxabs(u0)
     for name, zero in (("int0", 0), ("0.0", 0.0), ("-0.0", -0.0), ("np0", numpy.float64(0.0))):
         T0 = extract(zero)
-        o.close("z0_returns_input", _maxabs(T0 - I), 0.0, sub="zero=" + name)
+        # "distance 0 returns the input": equality of values; bit identity would only follow from an early return,
+        # an implementation that applies the unit transfer function returns the input to rounding (~2e-16 * |u|)
+        o.close("z0_returns_input", _maxabs(T0 - I), TOL, sub="zero=" + name)
         y = numpy.asarray(step(zero)(u0.copy()))
         o.stat("lib_calls", 1)
-        o.check("z0_returns_input", y.shape == u0.shape and bool(numpy.array_equal(y, u0)),
+        o.close("z0_returns_input", _maxabs(y - u0) / uscale if y.shape == u0.shape else float("inf"), TOL,
                 sub="field:zero=" + name)
 
     # ---- a field stored in a real dtype (a transmission mask, an amplitude at its waist) is the same field
@@ -356,6 +495,16 @@ def _magrt(p):
 
 # ================================================================================== operator identities
 
+def _one_step_grids(N, wvl, d1, z):
+    """Output grids on which a single-transform Fresnel evaluation may return its samples.  z > 0: x2 = lambda z f
+    ascending.  z < 0: the statement does not fix the order; x2 = lambda z f read literally is DESCENDING (signed
+    spacing), a method that keeps coordinates ascending returns the same plane mirrored through the origin."""
+    d2s = fr.one_step_spacing(N, wvl, d1, z)
+    if d2s > 0:
+        return [("ascending", d2s)]
+    return [("descending", d2s), ("ascending", -d2s)]
+
+
 def _op(p):
     o = Out()
     op = _op_module()
@@ -367,34 +516,37 @@ def _op(p):
         o.stat("lib_calls", c)
         return T
 
-    def rel(X, Y):
-        return _maxabs(X - Y) / _maxabs(Y)
+    rel = _rel
 
-    # one-step: direct quadrature of the Fresnel integral on the grid the method defines
-    d2s = fr.one_step_spacing(N, wvl, d1, z)
-    R1 = fr.fresnel_matrix_2d(N, wvl, d1, d2s, z)
+    # one-step: direct quadrature of the Fresnel integral on the grid the method defines (z < 0: either order of
+    # the output coordinates, whichever the method uses - the lens clause below then has to use the same one)
     T1 = ext(lambda U: op.oneStepFresnel(U, wvl, d1, z))
-    o.close("one_step_is_fresnel_integral", rel(T1, R1), TOL)
+    e1, orient, R1 = None, None, None
+    for name, dd in _one_step_grids(N, wvl, d1, z):
+        R = fr.fresnel_matrix_2d(N, wvl, d1, dd, z)
+        e = rel(T1, R)
+        if e1 is None or e < e1:
+            e1, orient, R1 = e, name, R
+    o.close("one_step_is_fresnel_integral", e1, TOL)
+    if z < 0 and e1 <= TOL:
+        o.note("negative_z_grid", [orient])
+        o.stat("negative_z_grid_" + orient, 1)
     # lens (focal length f = z): same integral with the inner quadratic phase cancelled by the lens
     TL = ext(lambda U: op.lensAgainst(U, wvl, d1, z))
     lens = fr.lens_phase(N, wvl, d1, z)
     o.close("lens_equals_one_step_after_lens", rel(TL, T1 * lens[None, :]), TOL)
     o.close("lens_is_fresnel_integral", rel(TL, R1 * lens[None, :]), TOL)
     # angular spectrum, unit magnification: Fresnel transfer function
-    f = fr.coords(N, 1.0 / (N * d1))
-    H = numpy.exp(-1j * numpy.pi * wvl * z * (f[None, :] ** 2 + f[:, None] ** 2)).reshape(-1)
-    ref = dft.kron2(dft.centred_idft(N, 1.0 / (N * d1))) @ (H[:, None] * dft.kron2(dft.centred_dft(N, d1)))
     TA1 = ext(lambda U: op.angularSpectrum(U, wvl, d1, d1, z))
-    o.close("angular_spectrum_transfer_function", rel(TA1, ref), TOL)
+    o.close("angular_spectrum_transfer_function", rel(TA1, _tf_ref(N, wvl, d1, z)), TOL)
     for m in MAGS_OP:
         d2 = m * d1
         sub = "m=%g" % m
         T2 = ext(lambda U: op.twoStepFresnel(U, wvl, d1, d2, z))
-        Dz1 = z / 2.0 if m == 1.0 else z / (1.0 - m)
-        Dz2 = z - Dz1
-        d1a = abs(fr.one_step_spacing(N, wvl, d1, Dz1))
-        chain = fr.fresnel_matrix_2d(N, wvl, d1a, d2, Dz2) @ fr.fresnel_matrix_2d(N, wvl, d1, d1a, Dz1)
-        e2 = rel(T2, chain)
+        # chain of two quadratures through the method's intermediate plane: z/(1-m) (anchor of the statement) or
+        # z/(1+m), the two planes from which the second step lands on spacing m d1
+        e2, plane, _, chain = _best_two_step_plane(T2, N, wvl, d1, d2, z)
+        o.stat("two_step_plane_" + plane, 1)
         det = None
         if not e2 <= TOL:
             det = ("residual against the mirror image through the origin of the reference: %.2e"
@@ -402,16 +554,155 @@ def _op(p):
         o.close("two_step_is_fresnel_integral", e2, TOL, sub=sub, detail=det)
         if m != 1.0:
             TA = ext(lambda U: op.angularSpectrum(U, wvl, d1, d2, z))
-            e, phi = _phase_aligned(TA, chain)
+            e, phi = _phase_aligned(TA, _chain(N, wvl, d1, d2, z, z / (1.0 - m)))
             o.close("angular_spectrum_is_fresnel_integral", e, TOL, sub=sub)
             o.close("angular_spectrum_constant_phase", abs(phi), TOL_PHASE, sub=sub)
-            e, phi = _phase_aligned(T2, TA)
-            det = None
-            if not e <= TOL:
-                det = ("residual after mirroring the two-step output through the origin: %.2e"
-                       % _phase_aligned(fr.mirror_matrix(N) @ T2, TA)[0])
-            o.close("two_step_equals_angular_spectrum", e, TOL, sub=sub, detail=det)
+            if plane == "conjugate" or not e2 <= TOL:
+                e, phi = _phase_aligned(T2, TA)
+                det = None
+                if not e <= TOL:
+                    det = ("residual after mirroring the two-step output through the origin: %.2e"
+                           % _phase_aligned(fr.mirror_matrix(N) @ T2, TA)[0])
+                o.close("two_step_equals_angular_spectrum", e, TOL, sub=sub, detail=det)
+            else:
+                # equality of the COMPLETE operators (also on inputs no plane resolves) is a property of the pair
+                # (scaled convolution, chain through z/(1-m)); a two-step method through z/(1+m) agrees with the
+                # angular spectrum on resolved fields only - decided in the beam cases
+                o.stat("two_step_equals_angular_spectrum_not_claimed", 1)
+    # magnifications arbitrarily close to 1 (a tolerance instead of `m == 1` returns the field on the wrong grid):
+    # angular spectrum against the scaled-convolution form of the integral (well conditioned for m -> 1; unchanged
+    # library <= 3e-14), two-step against its chain (rounding grows like 1/|1-m|: measured 5e-11 at 1e-3 and 4e-8
+    # at 1e-6, tolerance 1e-12/|1-m| = 20x)
+    for eps in NEAR_UNIT:
+        m = 1.0 + eps
+        d2 = m * d1
+        sub = "m=1%+g" % eps
+        TA = ext(lambda U: op.angularSpectrum(U, wvl, d1, d2, z))
+        e, phi = _phase_aligned(TA, _as_ref(N, wvl, d1, d2, z))
+        o.close("angular_spectrum_near_unit_magnification", e, TOL, sub=sub)
+        o.close("angular_spectrum_constant_phase", abs(phi), TOL_PHASE, sub=sub)
+        T2 = ext(lambda U: op.twoStepFresnel(U, wvl, d1, d2, z))
+        e2 = _best_two_step_plane(T2, N, wvl, d1, d2, z)[0]
+        o.close("two_step_near_unit_magnification", e2, max(TOL, 1e-12 / abs(eps)), sub=sub)
+    _op_storage(o, op, N, wvl, d1, z)
     o.outcome(numpy.round(T1 / _maxabs(T1), 6))
+    return o
+
+
+def _op_storage(o, op, N, wvl, d1, z):
+    """caller-owned arrays and storage variants for every propagator (the angular spectrum also in `group`)"""
+    from mc import variants
+    u = _field(N).astype(complex)
+    ur = numpy.round(u.real * 4.0) + 3.0                       # integers 0..17: exact in every real dtype offered
+    a1 = wvl * abs(z) / d1 ** 2                                # single-transform outputs are O(d1^2 / (lambda z))
+    props = (("one_step", lambda U: numpy.asarray(op.oneStepFresnel(U, wvl, d1, z)) * a1),
+             ("two_step", lambda U: numpy.asarray(op.twoStepFresnel(U, wvl, d1, 1.3 * d1, z))),
+             ("lens", lambda U: numpy.asarray(op.lensAgainst(U, wvl, d1, z)) * a1),
+             ("angular_spectrum", lambda U: numpy.asarray(op.angularSpectrum(U, wvl, d1, 0.8 * d1, z))))
+    for name, f in props:
+        if name != "angular_spectrum":
+            k = variants.check_reuse(o, "input_field", f, u, TOL, sub=name, mutate=lambda a: a.__imul__(0.5 - 0.25j))
+            o.stat("lib_calls", k)
+        # the same values Fortran-ordered, as strided / transposed / read-only views, in single precision
+        # (relative 1e-5 of max(1, |result|)), and a real field (mask, amplitude) in real dtypes
+        k = variants.check_storage(o, "field_storage", f, u, TOL, sub=name, kinds=("float32",))
+        k += variants.check_storage(o, "field_storage", f, ur, TOL, sub=name + ":real", kinds=("float32", "int64", "uint8"),
+                                    with_layouts=False)
+        o.stat("lib_calls", k)
+
+
+# ================================================================================== call histories
+
+def _history(p):
+    """P(A) ; P(B) ; P(A) for every propagator P, B differing from A in one parameter: a quantity remembered from
+    an earlier call under a key that misses that parameter (transfer function, coordinate grid, chirp) makes the
+    second operator that of A, or the third that of B.  Operators by basis exhaustion; the oracle for each is the
+    reference model of ITS parameters, so the verdict does not depend on which cases this process ran before."""
+    o = Out()
+    op = _op_module()
+    N = p["N"]
+    shape = (N, N)
+    A = dict(HISTORY_BASE)
+    B = dict(A)
+    B[p["key"]] = p["val"]
+
+    def ext(fn):
+        T, c = linear.operator(fn, shape, out_shape=shape)
+        o.stat("lib_calls", c)
+        return T
+
+    def grids(q):
+        return [fr.fresnel_matrix_2d(N, q["wvl"], q["d1"], dd, q["z"]) for _, dd in _one_step_grids(N, q["wvl"], q["d1"], q["z"])]
+
+    props = [
+        ("angular_spectrum:m=1", ("wvl", "d1", "z"), False,
+         lambda q: (lambda U: op.angularSpectrum(U, q["wvl"], q["d1"], q["d1"], q["z"])),
+         lambda q: [_tf_ref(N, q["wvl"], q["d1"], q["z"])]),
+        ("angular_spectrum", ("wvl", "d1", "d2", "z"), True,
+         lambda q: (lambda U: op.angularSpectrum(U, q["wvl"], q["d1"], q["d2"], q["z"])),
+         lambda q: [_as_ref(N, q["wvl"], q["d1"], q["d2"], q["z"])]),
+        ("one_step", ("wvl", "d1", "z"), False,
+         lambda q: (lambda U: op.oneStepFresnel(U, q["wvl"], q["d1"], q["z"])), grids),
+        ("lens", ("wvl", "d1", "z"), False,
+         lambda q: (lambda U: op.lensAgainst(U, q["wvl"], q["d1"], q["z"])),
+         lambda q: [R * fr.lens_phase(N, q["wvl"], q["d1"], q["z"])[None, :] for R in grids(q)]),
+        ("two_step", ("wvl", "d1", "d2", "z"), False,
+         lambda q: (lambda U: op.twoStepFresnel(U, q["wvl"], q["d1"], q["d2"], q["z"])),
+         lambda q: [_chain(N, q["wvl"], q["d1"], q["d2"], q["z"], Dz1)
+                    for _, Dz1 in _two_step_planes(q["d2"] / q["d1"], q["z"])]),
+    ]
+
+    def dev(T, refs, aligned):
+        return min((_phase_aligned(T, R)[0] if aligned else _rel(T, R)) for R in refs)
+
+    for name, uses, aligned, call, ref in props:
+        if p["key"] not in uses:
+            continue
+        TA1 = ext(call(A))
+        TB = ext(call(B))
+        TA3 = ext(call(A))
+        o.close("history_first_parameters", dev(TA1, ref(A), aligned), TOL, sub=name)
+        o.close("history_after_parameter_change", dev(TB, ref(B), aligned), TOL, sub=name,
+                detail="operator obtained for %s after calls with %s" % (B, A))
+        o.close("history_back_to_first_parameters", _rel(TA3, TA1), TOL, sub=name)
+        o.note("history_min_operator_change", min(float(o.notes.get("history_min_operator_change", 1e300)),
+                                                  _rel(TB, TA1)))
+        o.outcome(numpy.round(TB / _maxabs(TB), 6))
+    return o
+
+
+# ================================================================================== full-band fields, N = 64 .. 1030
+
+def _fullband(p):
+    """group law and magnified round trip on ONE full-band field at sizes where basis exhaustion is out of reach
+    (nothing in `beam` has energy in the outer half of the band or at the edge samples)"""
+    o = Out()
+    op = _op_module()
+    N, wvl, d, z = p["N"], p["wvl"], p["d"], p["z"]
+    u = _field(N)
+    scale = _maxabs(u)
+
+    def AS(U, a, b, dist):
+        o.stat("lib_calls", 1)
+        return numpy.asarray(op.angularSpectrum(U, wvl, a, b, dist))
+
+    def relf(X, Y):
+        return _maxabs(X - Y) / scale if X.shape == Y.shape else float("inf")
+
+    y = AS(u.copy(), d, d, z)
+    # unchanged library: <= 2e-14 (unitary transfer function, rounding of two FFT pairs) -> 1e-11
+    o.close("fullband_inverse", relf(AS(y.copy(), d, d, -z), u), TOL_FULLBAND)
+    for t in FULLBAND_SPLITS:
+        o.close("fullband_split", relf(AS(AS(u.copy(), d, d, t * z), d, d, z - t * z), y), TOL_FULLBAND, sub="t=%g" % t)
+    o.note("fullband_distance_from_input", relf(y, u))
+    for m in (1.3, 0.5):
+        back = AS(AS(u.copy(), d, m * d, z), m * d, d, -z)
+        e, phi = _phase_aligned(back, u) if back.shape == u.shape else (float("inf"), 0.0)
+        # the chirps exp(+-i Phi), Phi <= pi |1-m| max(1,m) N^2 d^2 / (2 lambda |z|) (4e5 rad at N = 600), cancel only to
+        # the rounding of their arguments: unchanged library 0.8 .. 1.4 eps Phi at every point -> 8 eps Phi
+        Phi = numpy.pi * abs(1.0 - m) * max(1.0, m) * (N * d) ** 2 / (2.0 * wvl * abs(z))
+        o.close("fullband_magnified_round_trip", e, TOL_FULLBAND + 8 * 2.2e-16 * Phi, sub="m=%g" % m)
+    o.outcome(numpy.round(y[:4, :4], 6))
     return o
 
 
@@ -457,82 +748,120 @@ def _beam(p):
     g_spec = numpy.pi * w0 / (2 * d1)          # spectrum exp(-(pi w0 f)^2) at the Nyquist frequency
     n_resolved = 0
 
-    def compare(name, out, d2, z, sub):
-        ref = fr.gaussian_beam(N, d2, wvl, w0, za + z, x0, y0)
-        e, phi = _phase_aligned(out, ref)
+    neg_grids = set()
+
+    def compare(name, out, grids, z, sub, tol=TOL_BEAM):
+        """`grids`: candidate (orientation, signed spacing) of the output samples; the one that reproduces the closed
+        form best is used for every clause of this output and returned (None if the field clause fails)"""
+        e, phi, d2, orient = None, None, None, None
+        for gname, dd in grids:
+            ref_ = fr.gaussian_beam(N, dd, wvl, w0, za + z, x0, y0)
+            e_, phi_ = _phase_aligned(out, ref_) if out.shape == ref_.shape else (float("inf"), 0.0)
+            if e is None or e_ < e:
+                e, phi, d2, orient, ref = e_, phi_, dd, gname, ref_
         det = None
-        if not e <= TOL_BEAM:
+        if not e <= tol:
             det = "relative residual of the output " + _orientation_diagnosis(out, ref)
-        o.close("gaussian_beam", e, TOL_BEAM, sub=sub, detail=det)
+        o.close("gaussian_beam", e, tol, sub=sub, detail=det)
         # width from the second moment of |U|^2: independent of orientation and phase, so it stays
         # informative for a configuration whose field comparison already fails
         cx, cy, w = fr.second_moment_radius(out, d2)
         o.close("beam_width", abs(w / fr.beam_radius(wvl, w0, za + z) - 1.0), 1e-8, sub=sub)
-        if e <= TOL_BEAM:
+        if e <= tol:
             # absolute phase: Gouy phase is part of the reference; envelope or full-carrier convention
             dphi = min(abs(_wrap(phi)), abs(_wrap(phi - 2 * numpy.pi * _frac_cycles(z, wvl))))
             o.close("gouy_phase", dphi, TOL_GOUY, sub=sub)
             o.close("beam_centroid", max(abs(cx - x0), abs(cy - y0)) / w0, 1e-8, sub=sub)
+            return orient
+        return None
 
+    def g_plane(Dz1):
+        d1a = abs(fr.one_step_spacing(N, wvl, d1, Dz1))
+        return _margin(N, d1a, c, fr.beam_radius(wvl, w0, za + Dz1))
+
+    def two_step_resolved(m, d2, z):
+        """does the intermediate plane of the two-step method resolve the beam?  If every candidate plane does (or
+        none), the answer does not depend on the method; otherwise the method is asked which plane it uses."""
+        g = [g_plane(Dz1) for _, Dz1 in _two_step_planes(m, z)]
+        if min(g) >= MARGIN:
+            return True
+        if not max(g) >= MARGIN:
+            return False
+        return min(g_plane(Dz1) for Dz1 in _probe_two_step_planes(o, op, wvl, d1, d2, z)) >= MARGIN
+
+    mags = [(m, "m=%g" % m) for m in p.get("mags", MAGS_BEAM)]
+    if "mags" not in p:
+        mags += [(1.0 + eps, "m=1%+g" % eps) for eps in NEAR_UNIT_BEAM]
     for zf in p.get("z_f", Z_F):
         z = zf * zR
         w_out = fr.beam_radius(wvl, w0, za + z)
-        outs = {}
-        for m in p.get("mags", MAGS_BEAM):
+        for m, mname in mags:
             d2 = m * d1
+            near = m != 1.0 and abs(m - 1.0) < 0.01
             g_out = _margin(N, d2, c, w_out)
-            Dz1 = z / 2.0 if m == 1.0 else z / (1.0 - m)
-            d1a = abs(fr.one_step_spacing(N, wvl, d1, Dz1))
-            g_mid = _margin(N, d1a, c, fr.beam_radius(wvl, w0, za + Dz1))
-            sub = "m=%g:z=%+gzR" % (m, zf)
-            ok_as = min(g_in, g_out, g_spec if m == 1.0 else g_mid) >= MARGIN
-            ok_two = min(g_in, g_out, g_mid) >= MARGIN
+            sub = "%s:z=%+gzR" % (mname, zf)
+            # angular spectrum: spectrum inside the band (m = 1), resp. the plane z/(1-m) in which the scaled
+            # convolution is equivalent to two single-transform steps resolved (-> the band condition for m -> 1)
+            ok_as = min(g_in, g_out, g_spec if m == 1.0 else g_plane(z / (1.0 - m))) >= MARGIN
+            ok_two = min(g_in, g_out) >= MARGIN and two_step_resolved(m, d2, z)
             if ok_as:
                 a = numpy.asarray(op.angularSpectrum(Uin.copy(), wvl, d1, d2, z))
                 o.stat("lib_calls", 1)
                 n_resolved += 1
-                compare("angular_spectrum", a, d2, z, "angular_spectrum:" + sub)
+                compare("angular_spectrum", a, [("ascending", d2)], z, "angular_spectrum:" + sub)
+            # rounding of the two-step chain grows like 1/|1-m| (plane z/(1-m) far away): 1e-12/|1-m|, see _op
+            tol_two = max(TOL_BEAM, 1e-12 / abs(m - 1.0)) if near else TOL_BEAM
             if ok_two:
                 t = numpy.asarray(op.twoStepFresnel(Uin.copy(), wvl, d1, d2, z))
                 o.stat("lib_calls", 1)
                 n_resolved += 1
-                compare("two_step", t, d2, z, "two_step:" + sub)
+                compare("two_step", t, [("ascending", d2)], z, "two_step:" + sub, tol=tol_two)
             if ok_as and ok_two:
                 e, phi = _phase_aligned(t, a)
                 det = None
-                if not e <= TOL_BEAM:
+                if not e <= tol_two:
                     det = "relative residual of the two-step output against angular spectrum, " + \
                           _orientation_diagnosis(t, a)
-                o.close("agree_two_step_angular_spectrum", e, TOL_BEAM, sub=sub, detail=det)
-                if e <= TOL_BEAM:
+                o.close("agree_two_step_angular_spectrum", e, tol_two, sub=sub, detail=det)
+                if e <= tol_two:
                     o.close("agree_constant_phase", abs(phi), TOL_PHASE, sub="two_step~angular_spectrum:" + sub)
-        # one-step on its own grid; other propagators asked for that grid (z > 0: ascending grid)
-        d2s = fr.one_step_spacing(N, wvl, d1, z)
-        g_out = _margin(N, d2s, c, w_out)
+        # one-step on its own grid (z < 0: in either order of the output coordinates); the other propagators asked
+        # for that grid, ascending
+        grids = _one_step_grids(N, wvl, d1, z)
+        d2a = abs(grids[0][1])
+        g_out = _margin(N, d2a, c, w_out)
         sub = "z=%+gzR" % zf
         if min(g_in, g_out) >= MARGIN:
             s = numpy.asarray(op.oneStepFresnel(Uin.copy(), wvl, d1, z))
             o.stat("lib_calls", 1)
             n_resolved += 1
-            compare("one_step", s, d2s, z, "one_step:" + sub)
-            if d2s > 0:
-                m = d2s / d1
-                Dz1 = z / (1.0 - m)
-                d1a = abs(fr.one_step_spacing(N, wvl, d1, Dz1))
-                g_mid = _margin(N, d1a, c, fr.beam_radius(wvl, w0, za + Dz1))
-                if abs(m - 1.0) > 0.05 and g_mid >= MARGIN:
-                    for name, fn in (("angular_spectrum", op.angularSpectrum), ("two_step", op.twoStepFresnel)):
-                        other = numpy.asarray(fn(Uin.copy(), wvl, d1, d2s, z))
-                        o.stat("lib_calls", 1)
-                        e, phi = _phase_aligned(other, s)
-                        det = None
-                        if not e <= TOL_BEAM:
-                            det = ("relative residual of the %s output against one-step (m=%.4g), " % (name, m)
-                                   + _orientation_diagnosis(other, s))
-                        o.close("agree_%s_one_step" % name, e, TOL_BEAM, sub=sub + ":m=%.4g" % m, detail=det)
-                        if e <= TOL_BEAM:
-                            o.close("agree_constant_phase", abs(phi), TOL_PHASE,
-                                    sub="%s~one_step:%s" % (name, sub))
+            orient = compare("one_step", s, grids, z, "one_step:" + sub)
+            if z < 0 and orient is not None:
+                neg_grids.add(orient)
+            if z > 0:
+                orient = "ascending"          # nothing to identify: compared also when the field clause failed
+            m = d2a / d1
+            if orient is not None and abs(m - 1.0) > 0.05:
+                s_asc = s if orient == "ascending" else _mirror(s)
+                ok = {"angular_spectrum": g_plane(z / (1.0 - m)) >= MARGIN, "two_step": two_step_resolved(m, d2a, z)}
+                for name, fn in (("angular_spectrum", op.angularSpectrum), ("two_step", op.twoStepFresnel)):
+                    if not ok[name]:
+                        continue
+                    other = numpy.asarray(fn(Uin.copy(), wvl, d1, d2a, z))
+                    o.stat("lib_calls", 1)
+                    e, phi = _phase_aligned(other, s_asc)
+                    det = None
+                    if not e <= TOL_BEAM:
+                        det = ("relative residual of the %s output against one-step (m=%.4g), " % (name, m)
+                               + _orientation_diagnosis(other, s_asc))
+                    o.close("agree_%s_one_step" % name, e, TOL_BEAM, sub=sub + ":m=%.4g" % m, detail=det)
+                    if e <= TOL_BEAM:
+                        o.close("agree_constant_phase", abs(phi), TOL_PHASE,
+                                sub="%s~one_step:%s" % (name, sub))
+    if neg_grids:
+        o.note("negative_z_grid", sorted(neg_grids))
+        for g in neg_grids:
+            o.stat("negative_z_grid_" + g, 1)
     o.note("resolved_configurations_in_last_case", n_resolved)
     o.stat("resolved_beam_configurations", n_resolved)
     return o
@@ -596,13 +925,38 @@ def _airy(p):
     tilt = numpy.exp(2j * numpy.pi * (kx * x[None, :] + ky * x[:, None]) / (N * d1))
     Ut = numpy.asarray(op.lensAgainst(pupil * tilt, wvl, d1, f))
     o.stat("lib_calls", 1)
-    # (on the method's own signed grid x2 = lambda f * frequency the index offset is (ky, kx) for either sign of f)
-    want = (c + ky, c + kx)
-    got = numpy.unravel_index(int(numpy.argmax(numpy.abs(Ut))), Ut.shape)
-    o.check("airy_tilt_displacement", tuple(int(g) for g in got) == want,
-            detail="peak at %s expected %s" % (got, want))
-    shifted = numpy.roll(numpy.abs(Ut), (-ky, -kx), axis=(0, 1))
+    # on the signed grid x2 = lambda f * frequency the index offset is (ky, kx) for either sign of f; a method that
+    # keeps the coordinates ascending for f < 0 puts the same point at (-ky, -kx)
+    wants = {"ascending" if f > 0 else "descending": (ky, kx)}
+    if f < 0:
+        wants["ascending"] = (-ky, -kx)
+    got = tuple(int(g) for g in numpy.unravel_index(int(numpy.argmax(numpy.abs(Ut))), Ut.shape))
+    orient = [g for g, (oy, ox) in wants.items() if got == (c + oy, c + ox)]
+    o.check("airy_tilt_displacement", bool(orient),
+            detail="peak at %s expected %s" % (got, " or ".join(str((c + oy, c + ox)) for oy, ox in wants.values())))
+    oy, ox = wants[orient[0]] if orient else (ky, kx)
+    if f < 0 and orient:
+        o.note("negative_z_grid", orient)
+        o.stat("negative_z_grid_" + orient[0], 1)
+    shifted = numpy.roll(numpy.abs(Ut), (-oy, -ox), axis=(0, 1))
     o.close("airy_tilt_shape", _maxabs(shifted - numpy.abs(U)) / abs(U[c, c]), 1e-9)
     o.outcome(numpy.round(prof[c, c:c + 12], 6))
     return o
 
+
+
+
+# ================================================================================== cross-case clause
+
+def finalize(tier, results):
+    """For z < 0 (f < 0) the single-transform methods may return their samples on the descending grid x2 = lambda z f
+    or on the ascending one - but on the same one everywhere (operators, beams, lens/Airy): 'the same orientation'."""
+    o = Out()
+    seen = {}
+    for cid in sorted(results):
+        for g in (results[cid].notes.get("negative_z_grid") or []):
+            seen.setdefault(g, cid)
+    o.check("negative_z_grid_is_one_convention", len(seen) <= 1, n=max(1, len(seen)),
+            detail=None if len(seen) <= 1 else {"first case of each convention": seen})
+    o.note("negative_z_grid_convention", sorted(seen))
+    return o
